@@ -1,0 +1,98 @@
+//go:build verif
+
+package load
+
+import (
+	"encoding/json"
+	"math"
+	"sync/atomic"
+	"testing"
+	"time"
+
+	"github.com/gotid/god/internal/verifdrv"
+	"github.com/gotid/god/lib/logx"
+	"github.com/gotid/god/lib/timex"
+)
+
+// ops: [0,cpu] Allow under CPU reading cpu | [1,k] Pass / [2,k] Fail of the request admitted by the
+// Allow at op index k (skipped when that Allow was dropped) | [3,dt] advance the virtual clock by dt ns.
+// The observation lists the ops as executed, completions renumbered by admission order.
+type verifCase struct {
+	Window  int64     `json:"window"`
+	Buckets int       `json:"buckets"`
+	Thr     int64     `json:"thr"`
+	Ops     [][]int64 `json:"ops"`
+}
+
+// TestVerifDriver drives adaptiveShedder with a scripted CPU reading on the virtual clock and
+// reports after every op: admitted (-1 n/a, 0 dropped, 1 admitted), flying, avgFlying as
+// mantissa*2^exp, droppedRecently, overloadTime (relative to the start), maxFlight().
+func TestVerifDriver(t *testing.T) {
+	logx.Disable()
+	verifdrv.Run(t, func(raw json.RawMessage) any {
+		var c verifCase
+		if err := json.Unmarshal(raw, &c); err != nil {
+			return map[string]any{"error": err.Error()}
+		}
+		timex.VerifSetNow(time.Hour)
+		defer timex.VerifClockOff()
+		var cpu int64
+		old := systemOverloadChecker
+		systemOverloadChecker = func(thr int64) bool { return cpu >= thr }
+		defer func() { systemOverloadChecker = old }()
+		var as *adaptiveShedder
+		if p, _ := verifdrv.Catch(func() {
+			as = NewAdaptiveShedder(WithWindow(time.Duration(c.Window)), WithBuckets(c.Buckets),
+				WithCpuThreshold(c.Thr)).(*adaptiveShedder)
+		}); p {
+			return map[string]any{"panic": true, "rows": [][]int64{}, "ops": [][]int64{}}
+		}
+		var promises []Promise
+		byOp := map[int64]int64{}
+		executed := make([][]int64, 0, len(c.Ops))
+		rows := make([][]int64, 0, len(c.Ops))
+		for k, op := range c.Ops {
+			admitted := int64(-1)
+			if op[0] == 1 || op[0] == 2 {
+				i, ok := byOp[op[1]]
+				if !ok {
+					continue
+				}
+				op = []int64{op[0], i}
+			}
+			executed = append(executed, op)
+			switch op[0] {
+			case 0:
+				cpu = op[1]
+				p, err := as.Allow()
+				if err != nil {
+					admitted = 0
+				} else {
+					admitted = 1
+					byOp[int64(k)] = int64(len(promises))
+					promises = append(promises, p)
+				}
+			case 1:
+				promises[op[1]].Pass()
+			case 2:
+				promises[op[1]].Fail()
+			case 3:
+				timex.VerifAdvance(time.Duration(op[1]))
+			}
+			frac, exp := math.Frexp(as.avgFlying)
+			dropped := int64(0)
+			if as.droppedRecently.True() {
+				dropped = 1
+			}
+			ot := int64(as.overloadTime.Load())
+			if ot != 0 {
+				ot -= int64(time.Hour)
+			} else {
+				ot = -1
+			}
+			rows = append(rows, []int64{admitted, atomic.LoadInt64(&as.flying), int64(frac * (1 << 53)),
+				int64(exp - 53), dropped, ot, as.maxFlight()})
+		}
+		return map[string]any{"panic": false, "rows": rows, "ops": executed, "windows": as.windows}
+	})
+}
